@@ -201,7 +201,8 @@ impl C06 {
         let mut data: Vec<String> = d.data_idx.iter().map(|i| obs.data[*i].clone()).collect();
         // items hit by an injected hard fault (EIO / failing open) become unreadable
         for (k, i) in d.rules_idx.iter().enumerate() {
-            if hard.iter().any(|h| h == &scn.rules[*i]) {
+            // (`alt/policy<i>.<ext>` is rules file i delivered under another name)
+            if hard.iter().any(|h| h == &scn.rules[*i] || h.starts_with(&format!("alt/policy{}.", i))) {
                 rules[k] = "U".into();
             }
         }
@@ -352,7 +353,8 @@ impl C06 {
                 }
                 _ => {}
             }
-            let rel = if same_base_rules { format!("rules/team-{}/checks.guard", i) } else { rules_rel(i) };
+            // (`.ruleset` is the other extension a directory walk accepts)
+            let rel = if same_base_rules { format!("rules/team-{}/checks.guard", i) } else if r.chance(1, 6) { format!("rules/r{}.ruleset", i) } else { rules_rel(i) };
             files.push(FileSpec { rel: rel.clone(), bytes, mtime_ns: 0 });
             rules.push(rel);
         }
@@ -375,7 +377,9 @@ impl C06 {
                 }
                 _ => {}
             }
-            let rel = if same_base_data { format!("data/env-{}/template.{}", i, f.ext()) } else { doc_rel(i, *f) };
+            // every extension the directory walk accepts: .json .jsn .yaml .yml .template
+            let ext = if r.chance(1, 3) { if f.ext() == "json" { *r.pick(&["jsn", "template"]) } else { *r.pick(&["yml", "template"]) } } else { f.ext() };
+            let rel = if same_base_data { format!("data/env-{}/template.{}", i, ext) } else { format!("data/d{}.{}", i, ext) };
             files.push(FileSpec { rel: rel.clone(), bytes, mtime_ns: 0 });
             data.push(rel);
         }
@@ -385,9 +389,16 @@ impl C06 {
         // test files: expectations are whatever the generator drew (match / mismatch both occur);
         // cases spread over 1-3 files, some files broken or unreadable
         let mut cases = wl.tests.clone();
+        // names: distinct, all absent, or all the same (a name identifies nothing)
+        let naming = r.below(8);
         for (i, c) in cases.iter_mut().enumerate() {
-            c.name = Some(format!("case {}", i + 1));
+            c.name = match naming {
+                0 | 1 => None,
+                2 => Some("case".to_string()),
+                _ => Some(format!("case {}", i + 1)),
+            };
         }
+        let test_ext = *r.pick(&["json", "json", "json", "jsn", "yaml", "yml"]);
         let nfiles = 1 + r.usize(3.min(cases.len()));
         let mut test_files: Vec<(String, Option<Vec<usize>>)> = Vec::new();
         let mut buckets: Vec<Vec<usize>> = vec![vec![]; nfiles];
@@ -395,7 +406,7 @@ impl C06 {
             buckets[i % nfiles].push(i);
         }
         for (k, b) in buckets.iter().enumerate() {
-            let rel = format!("tests/t{}_tests.json", k);
+            let rel = format!("tests/t{}_tests.{}", k, test_ext);
             let cs: Vec<TestCase> = b.iter().map(|i| cases[*i].clone()).collect();
             files.push(FileSpec { rel: rel.clone(), bytes: tests_text(&cs), mtime_ns: 0 });
             test_files.push((rel, Some(b.clone())));
@@ -470,8 +481,18 @@ impl C06 {
                 let pr = r.perm(nr);
                 let pd = r.perm(nd);
                 let mut argv = sv(&["cfn-guard", "validate"]);
+                // a rules file named explicitly may carry any extension (a copy under another name)
+                let mut alt: Vec<FileSpec> = Vec::new();
                 for i in &pr {
                     argv.push("-r".into());
+                    if r.chance(1, 8) {
+                        if let Some(f) = scn.files.iter().find(|f| f.rel == scn.rules[*i]) {
+                            let rel = format!("alt/policy{}.{}", i, *r.pick(&["rules", "txt", "guard.bak"]));
+                            alt.push(FileSpec { rel: rel.clone(), bytes: f.bytes.clone(), mtime_ns: 0 });
+                            argv.push(format!("@/{}", rel));
+                            continue;
+                        }
+                    }
                     argv.push(format!("@/{}", scn.rules[*i]));
                 }
                 let mut missing = Vec::new();
@@ -496,7 +517,7 @@ impl C06 {
                 }
                 // a directory that holds nothing the command accepts (other extensions only)
                 // contributes no rules file, no document and no error
-                let mut extra = vec![];
+                let mut extra = alt;
                 if r.chance(1, 6) {
                     extra.push(FileSpec { rel: "nothing/notes.txt".into(), bytes: b"{ not: [json".to_vec(), mtime_ns: 0 });
                     extra.push(FileSpec { rel: "nothing/sub/readme.md".into(), bytes: b"rule x {".to_vec(), mtime_ns: 0 });
